@@ -407,6 +407,8 @@ def run_once(gen, tl, trigger, reinit=False, pending=4, double=False, idle=1000.
             out["reinit_opens"] = sum(1 for _, _, k, d in log.since(m2) if k == "NET.open")
             out["reinit_heartbeats"] = sum(1 for t, c, k in ctx["world"].console.requests()
                                            if k == "version_request")
+            out["reinit_zone_requests"] = sum(1 for t, c, k in ctx["world"].console.requests()
+                                              if k == "zone_status_request")
             try:
                 await ctx["at"].shutdown()
             except Exception as e:  # noqa: BLE001
@@ -579,6 +581,11 @@ def judge(gen, tl, trig, o, reinit):
                 len(o["reinit_requests"]) != 7:
             # the six discovery requests once each, then the first heartbeat
             v("reinit-does-not-behave-like-a-fresh-object", requests=o["reinit_requests"][:16])
+        elif gen == 4 and o.get("reinit_zone_requests") != 3:
+            # AT4: the handshake's group status request, then - the console pushing nothing -
+            # the silence poll 300 s and 600 s later, as in a first life
+            v("second-life-does-not-behave-like-a-fresh-object:group-status-poll",
+              group_status_requests=o.get("reinit_zone_requests"))
         elif o.get("reinit_opens") != 1 or o.get("reinit_heartbeats") != 4:
             # (handshake's version request + heartbeats at T0, T0+300, T0+600)
             v("second-life-does-not-behave-like-a-fresh-object", connections=o.get("reinit_opens"),
